@@ -268,8 +268,13 @@ func runHandleChain(op string) string {
 			}
 		case 3: // dense and accepted
 			text, kind = "["+strings.Repeat("1,", n)+"1]", "dense-ok"
-		case 4: // above the asynchronous threshold, rejected
+		case 4: // above the asynchronous threshold, rejected in stage 2 only (late, or early with stage 1 still running)
 			text, kind = "["+strings.Repeat("{\"k\":[1,2,3]},", 700+cr.intn(300))+"}]", "async-bad"
+			if cr.chance(1, 2) {
+				text, kind = "[{\"k\" 1},"+strings.Repeat("{\"k\":[1,2,3]},", 700+cr.intn(300))+"1]", "async-bad-early"
+			}
+		case 5: // above the asynchronous threshold, accepted (the two stages run concurrently again on the same handle)
+			text, kind = "["+strings.Repeat("{\"k\":[1,2,3]},", 700+cr.intn(300))+"1]", "async-ok"
 		default:
 			cfg := defaultCfg(cr)
 			cfg.maxDepth, cfg.maxMembers = 1+cr.intn(3), 2+cr.intn(6)
